@@ -15,9 +15,9 @@ from _griffe.exceptions import AliasResolutionError, CyclicAliasError
 from _griffe.loader import GriffeLoader
 from _griffe.models import Alias, Class, Function, Module
 from vlib.ob import TIER, cover, fail, obligation, tiered
-from vlib.stubs import silence_logging
+from vlib.stubs import plain_error_messages, silence_logging
 
-STUBS = silence_logging()
+STUBS = silence_logging() + plain_error_messages()
 MODS = "mnq"
 NAMES = "xyz"
 
